@@ -9,6 +9,8 @@ import "reflect"
 //
 //	"s"  struct{ F string `tags[0]` }
 //	"b"  struct{ F bool `tags[0]` }
+//	"bs" struct{ F []bool `tags[0]` }
+//	"fn" struct{ F func() `tags[0]` }
 //	"ss" struct{ F1 string `tags[0]`; F2 string `tags[1]` }
 //	"g"  struct{ G struct{ X string `long:"x"` } `tags[0]` }
 //	"gg" struct{ G1 struct{ X string `tags[1]` } `tags[0]`; G2 struct{ Y string `tags[3]` } `tags[2]` }
@@ -29,6 +31,10 @@ func vTagged(v *V, shape string, tags []string) interface{} {
 		t = reflect.StructOf([]reflect.StructField{f("F", str, tags[0])})
 	case "b":
 		t = reflect.StructOf([]reflect.StructField{f("F", bl, tags[0])})
+	case "bs":
+		t = reflect.StructOf([]reflect.StructField{f("F", reflect.TypeOf([]bool{}), tags[0])})
+	case "fn":
+		t = reflect.StructOf([]reflect.StructField{f("F", reflect.TypeOf(func() {}), tags[0])})
 	case "ss":
 		t = reflect.StructOf([]reflect.StructField{f("F1", str, tags[0]), f("F2", str, tags[1])})
 	case "g":
@@ -53,6 +59,8 @@ func vTagged(v *V, shape string, tags []string) interface{} {
 // predeclared shapes used by the engine's intercept of vTagged
 type vTS struct{ F string }
 type vTB struct{ F bool }
+type vTBS struct{ F []bool }
+type vTFN struct{ F func() }
 type vTSS struct {
 	F1 string
 	F2 string
@@ -74,4 +82,4 @@ type vTC struct{ C vTCi }
 type vTPi struct{ A string }
 type vTP struct{ P vTPi }
 
-var vTaggedProtos = []interface{}{&vTS{}, &vTB{}, &vTSS{}, &vTG{}, &vTGG{}, &vTC{}, &vTP{}}
+var vTaggedProtos = []interface{}{&vTBS{}, &vTFN{}, &vTS{}, &vTB{}, &vTSS{}, &vTG{}, &vTGG{}, &vTC{}, &vTP{}}
